@@ -289,8 +289,9 @@ impl Options {
 			} else if k == "salt" {
 				let salt_slice =
 					hex::decode(v).map_err(|_| Error::Corruption("Bad salt string".into()))?;
-				let mut s = Salt::default();
-				s.copy_from_slice(&salt_slice);
+				let s: Salt = salt_slice
+					.try_into()
+					.map_err(|_| Error::Corruption("Bad salt string".into()))?;
 				salt = Some(s);
 			} else if k.starts_with("col") {
 				let col = ColumnOptions::from_string(v)
